@@ -271,6 +271,64 @@ Fixpoint go_range {A S R : Type} (body : Z -> A -> S -> go_loop S R) (i : Z) (l 
       end
   end.
 
+(** [for i, r := range s] over a STRING: "iterates over the Unicode code points in the string starting
+    at byte index 0; the index is the index of the first byte of the code point, the second value the
+    code point; an invalid UTF-8 sequence yields 0xFFFD and advances a single byte" (Go spec, For
+    statements with range clause).  [go_utf8_decode] is the decoding of the first code point by the
+    table of RFC 3629 / unicode/utf8 (shortest form only, no surrogates, at most U+10FFFF):
+      00..7F | C2..DF 80..BF | E0 A0..BF 80..BF | E1..EC,EE,EF 80..BF 80..BF | ED 80..9F 80..BF |
+      F0 90..BF 80..BF 80..BF | F1..F3 80..BF 80..BF 80..BF | F4 80..8F 80..BF 80..BF.
+    The fuel of the iteration is the number of bytes (every step consumes at least one). *)
+Definition utf8_cont (b : Z) : bool := (128 <=? b) && (b <=? 191).
+Definition go_utf8_decode (s : list Z) : Z * Z :=
+  let bad := (65533, 1) in
+  match s with
+  | [] => (65533, 0)
+  | b0 :: t =>
+    if b0 <? 128 then (b0, 1)
+    else if (194 <=? b0) && (b0 <=? 223) then
+      match t with
+      | b1 :: _ => if utf8_cont b1 then ((b0 mod 32) * 64 + b1 mod 64, 2) else bad
+      | _ => bad
+      end
+    else if (224 <=? b0) && (b0 <=? 239) then
+      match t with
+      | b1 :: b2 :: _ =>
+        let lo := if b0 =? 224 then 160 else 128 in
+        let hi := if b0 =? 237 then 159 else 191 in
+        if (lo <=? b1) && (b1 <=? hi) && utf8_cont b2
+        then ((b0 mod 16) * 4096 + (b1 mod 64) * 64 + b2 mod 64, 3) else bad
+      | _ => bad
+      end
+    else if (240 <=? b0) && (b0 <=? 244) then
+      match t with
+      | b1 :: b2 :: b3 :: _ =>
+        let lo := if b0 =? 240 then 144 else 128 in
+        let hi := if b0 =? 244 then 143 else 191 in
+        if (lo <=? b1) && (b1 <=? hi) && utf8_cont b2 && utf8_cont b3
+        then ((b0 mod 8) * 262144 + (b1 mod 64) * 4096 + (b2 mod 64) * 64 + b3 mod 64, 4) else bad
+      | _ => bad
+      end
+    else bad
+  end.
+Fixpoint go_range_string_fuel {S R : Type} (fuel : nat) (body : Z -> Z -> S -> go_loop S R)
+    (i : Z) (bs : list Z) (s : S) : go_loop S R :=
+  match fuel with
+  | O => LoopNext s
+  | Datatypes.S fuel' =>
+    match bs with
+    | [] => LoopNext s
+    | _ =>
+      let '(r, w) := go_utf8_decode bs in
+      match body i r s with
+      | LoopNext s' => go_range_string_fuel fuel' body (i + w) (skipn (Z.to_nat w) bs) s'
+      | LoopReturn x => LoopReturn x
+      end
+    end
+  end.
+Definition go_range_string {S R : Type} (body : Z -> Z -> S -> go_loop S R) (i : Z) (bs : list Z) (s : S) : go_loop S R :=
+  go_range_string_fuel (length bs) body i bs s.
+
 (** the indices of [for i := 0; i < n; i++]: n iterations, the element is not looked at *)
 Definition go_iota (n : Z) : list unit := repeat tt (Z.to_nat n).
 
